@@ -75,6 +75,10 @@ pub fn plan_for(property: &str) -> Option<(&'static str, Vec<PlanItem>)> {
             "C05",
             vec![PlanItem { family: "tx_window", run: c05_tx, quick: 4000, thorough: 120000, determinism_check: true }],
         ),
+        "C06" => (
+            "C06",
+            vec![PlanItem { family: "tx_retransmit", run: c06_tx, quick: 4000, thorough: 120000, determinism_check: true }],
+        ),
         "C16" => (
             "C16",
             vec![PlanItem { family: "direct_rtte", run: crate::fam::direct::direct_rtte, quick: 4000, thorough: 40000, determinism_check: false }],
@@ -290,6 +294,31 @@ fn c05_tx(ctx: &CaseCtx) -> CaseReport {
     }
     rep.counters.add("datagrams", view.pkts.len() as u64);
     rep.nontrivial = rep.counters.get("c05_first_transmissions_checked") > 2;
+    let end = run.end_time;
+    finish(&mut rep, ctx, &view, run.events, end);
+    rep
+}
+
+fn c06_tx(ctx: &CaseCtx) -> CaseReport {
+    let mut rep = CaseReport::new(ctx.family, ctx.index, ctx.case_seed);
+    let (cfg, run) = tx_common(ctx, &mut rep, crate::fam::txscript::TxFocus::Retransmit, if ctx.tier == Tier::Quick { 120_000 } else { 500_000 });
+    let view = WireView::build(&run.events);
+    let real_addr = if cfg.ipv6 { crate::sim::v6(crate::fam::txscript::REAL_PORT) } else { crate::sim::v4(crate::fam::txscript::REAL_PORT) };
+    if let Some(m) = mon::sender::build(&run.events, &view, cfg.real_initiates, cfg.sock.min_payload(!cfg.ipv6)) {
+        let realistic = (cfg.policy.dup_ack.0 == 0.0 || cfg.policy.dup_only_with_hole) && cfg.policy.stale_ack == 0.0;
+        mon::c06::check(&mut rep, &m, &run.events, cfg.sock.max_retransmissions.unwrap_or(5), real_addr, realistic);
+    }
+    // (d) content stability: every transmission of a sequence number carries the same bytes
+    if !view.conns.is_empty() {
+        let mut scratch = CaseReport::new("scratch", 0, 0);
+        mon::c01::check_wire_dir(&mut scratch, &view, 0, cfg.real_initiates, stream_key(ctx.case_seed, 0, 0), "tx");
+        rep.counters.add("c06_wire_content_checked", scratch.counters.get("c01_wire_data_packets_checked"));
+        for v in scratch.violations {
+            rep.violate("C06", v.rule, format!("content {}", v.signature), v.detail, v.at);
+        }
+    }
+    rep.counters.add("datagrams", view.pkts.len() as u64);
+    rep.nontrivial = rep.counters.get("c06_transmissions_checked") > 2;
     let end = run.end_time;
     finish(&mut rep, ctx, &view, run.events, end);
     rep
